@@ -2,11 +2,12 @@
    theorem cannot be weakened in its own file without this file failing to compile. *)
 From BT Require Import Base.Util.
 From BT Require Base.Float Model.RTree Model.BBIFile Model.BigWigWrite Model.Pipeline Model.TempBuf
-  Model.BigBedWrite Proofs.BedZoomFit Proofs.PipelineInv Proofs.PipelineThms Proofs.PipelineConv Proofs.PipelineLanes Properties.C11.
+  Model.BigBedWrite Proofs.BedZoomFit Proofs.PipelineInv Proofs.PipelineThms Proofs.PipelineConv Proofs.PipelineLanes
+  Model.PipelineConc Proofs.PipelineRefine Properties.C11.
 
 Module PinC11.
 Import Base.Float Model.RTree Model.BBIFile Model.BigWigWrite Model.Pipeline Proofs.PipelineInv Proofs.PipelineThms
-  Proofs.PipelineConv Proofs.PipelineLanes Properties.C11.
+  Proofs.PipelineConv Proofs.PipelineLanes Model.PipelineConc Proofs.PipelineRefine Properties.C11.
 Check (C11_fifo_order : forall g pre Ss sched, g_fifo g = true ->
   let s := run g sched (init pre Ss) in
   length (p_chroms s) = length Ss /\
@@ -91,4 +92,27 @@ Check (C11_converter_completion : forall win out0 Ts sched, (1 <= win)%nat ->
 Check (C11_converter_await_never_blocks : forall win out0 Ts sched,
   let s := vrun win sched (vinit out0 Ts) in
   v_pc s = VAwait -> exists s', vstep win VMain s = Some s').
+Check (C11_refine_step : forall g np pre Ss opss sched t s', g_fifo g = true ->
+  Forall2 (fun ops S => TempBuf.written ops = data_bytes S) opss Ss ->
+  let s := crun g sched (cinit np pre Ss opss) in
+  cstep g t s = Some s' ->
+  cabs s' = cabs s \/ exists t', step g t' (cabs s) = Some (cabs s')).
+Check (C11_refines : forall g np pre Ss opss sched, g_fifo g = true ->
+  Forall2 (fun ops S => TempBuf.written ops = data_bytes S) opss Ss ->
+  exists sched', cabs (crun g sched (cinit np pre Ss opss)) = run g sched' (init pre Ss)).
+Check (C11_buffers_are_c12 : forall g np pre Ss opss sched, g_fifo g = true ->
+  Forall2 (fun ops S => TempBuf.written ops = data_bytes S) opss Ss ->
+  let s := crun g sched (cinit np pre Ss opss) in
+  length (k_x s) = length Ss /\
+  forall k x, nth_error (k_x s) k = Some x ->
+    (exists sch, x_buf x = TempBuf.run (Dk pre Ss k) sch (TempBuf.init (nth k opss []) (cprog np))) /\
+    TempBuf.panicked (x_buf x) = false /\
+    (forall r, TempBuf.c_dest (x_buf x) = Some r -> r = Dk pre Ss (S k))).
+Check (C11_splice_concrete : forall g np pre Ss opss sched, g_fifo g = true ->
+  Forall2 (fun ops S => TempBuf.written ops = data_bytes S) opss Ss ->
+  let s := crun g sched (cinit np pre Ss opss) in
+  (forall k x, nth_error (k_x s) k = Some x -> TempBuf.panicked (x_buf x) = false) /\
+  sp_file (cabs s) = pre ++ data_bytes (concat (firstn (sp_k (cabs s)) Ss)) /\
+  (cterminal s = true ->
+     sp_file (cabs s) = seq_file pre Ss /\ final_index (Nlen pre) (cabs s) = seq_index pre Ss)).
 End PinC11.
